@@ -92,32 +92,8 @@ MUTANTS = [
     dict(name='c02-seed2-wakeup-predicate-equality', prop='C02', clause='D5', edits=[('src/tbb/concurrent_bounded_queue.cpp',
         "    bool operator() ( std::uintptr_t ticket ) const { return static_cast<std::size_t>(ticket) <= my_ticket; }",
         "    bool operator() ( std::uintptr_t ticket ) const { return static_cast<std::size_t>(ticket) == my_ticket; }")]),
-    dict(name='c11-seed2-block-zero-fill-across-segments', prop='C11', clause='D8', edits=[(CV_H, """                for (size_type i = idx; i < end_idx; ++i) {
-                    // Only the last segment of the range is allocated in advance,
-                    // the segments between the failed element and the last one may be not allocated yet
-                    if (table[this->segment_index_of(i)].load(std::memory_order_relaxed) > this->segment_allocation_failure_tag) {
-                        zero_unconstructed_elements(&this->internal_subscript(i), /*count =*/1);
-                    }
-                }
-            });
-            segment_table_allocator_traits::construct(base_type::get_allocator(), element_address, args...);""", """                if (idx < end_idx && table[this->segment_index_of(idx)].load(std::memory_order_relaxed) > this->segment_allocation_failure_tag) {
-                    zero_unconstructed_elements(&this->internal_subscript(idx), /*count =*/end_idx - idx);
-                }
-            });
-            segment_table_allocator_traits::construct(base_type::get_allocator(), element_address, args...);""")]),
-    dict(name='c11-cleanup-touches-unallocated-segment', prop='C11', clause='D8', edits=[(CV_H, """                for (size_type i = idx; i < end_idx; ++i) {
-                    // Only the last segment of the range is allocated in advance,
-                    // the segments between the failed element and the last one may be not allocated yet
-                    if (table[this->segment_index_of(i)].load(std::memory_order_relaxed) > this->segment_allocation_failure_tag) {
-                        zero_unconstructed_elements(&this->internal_subscript(i), /*count =*/1);
-                    }
-                }
-            });
-            segment_table_allocator_traits::construct(base_type::get_allocator(), element_address, args...);""", """                for (size_type i = idx; i < end_idx; ++i) {
-                    zero_unconstructed_elements(&this->internal_subscript(i), /*count =*/1);
-                }
-            });
-            segment_table_allocator_traits::construct(base_type::get_allocator(), element_address, args...);""")]),
+    dict(name='c11-seed2-block-zero-fill-across-segments', prop='C11', clause='D8', edits=[(CV_H, '        for (size_type i = idx; i < end_idx; ++i) {\n            // Only the last segment of the range is allocated in advance,\n            // the segments between the failed element and the last one may be not allocated yet\n            if (table[this->segment_index_of(i)].load(std::memory_order_relaxed) > this->segment_allocation_failure_tag) {\n                zero_unconstructed_elements(&this->internal_subscript(i), /*count =*/1);\n            }\n        }\n    }\n', '        if (idx < end_idx && table[this->segment_index_of(idx)].load(std::memory_order_relaxed) > this->segment_allocation_failure_tag) {\n            zero_unconstructed_elements(&this->internal_subscript(idx), /*count =*/end_idx - idx);\n        }\n    }\n')]),
+    dict(name='c11-cleanup-touches-unallocated-segment', prop='C11', clause='D8', edits=[(CV_H, '        for (size_type i = idx; i < end_idx; ++i) {\n            // Only the last segment of the range is allocated in advance,\n            // the segments between the failed element and the last one may be not allocated yet\n            if (table[this->segment_index_of(i)].load(std::memory_order_relaxed) > this->segment_allocation_failure_tag) {\n                zero_unconstructed_elements(&this->internal_subscript(i), /*count =*/1);\n            }\n        }\n    }\n', '        for (size_type i = idx; i < end_idx; ++i) {\n            zero_unconstructed_elements(&this->internal_subscript(i), /*count =*/1);\n        }\n    }\n')]),
     dict(name='c05-seed2-3d-ratio-wrong-grainsize', prop='C05', clause='D2', edits=[('include/oneapi/tbb/blocked_range3d.h',
         "            if ( my_rows.size()*double(my_cols.grainsize()) < my_cols.size()*double(my_rows.grainsize()) ) {",
         "            if ( my_rows.size()*double(my_cols.grainsize()) < my_cols.size()*double(my_cols.grainsize()) ) {")]),
@@ -738,6 +714,53 @@ MUTANTS = [
     dict(name='c11-capacity-scan-skips-failed-entries', prop='C11', clause='D5', edits=[('include/oneapi/tbb/detail/_segment_table.h',
         '        segment_table_type table = get_table();\n        size_type num_segments = number_of_segments(table);\n        for (size_type seg_index = 0; seg_index < num_segments; ++seg_index) {\n            // Check if the pointer is valid (allocated)\n            if (table[seg_index].load(std::memory_order_relaxed) <= segment_allocation_failure_tag) {\n                return segment_base(seg_index);\n            }\n        }\n        return segment_base(num_segments);',
         '        segment_table_type table = get_table();\n        size_type num_segments = number_of_segments(table);\n        for (size_type seg_index = 0; seg_index < num_segments; ++seg_index) {\n            // Check if the pointer is valid (allocated)\n            if (table[seg_index].load(std::memory_order_relaxed) <= segment_allocation_failure_tag) {\n                if (table[seg_index].load(std::memory_order_relaxed) == nullptr) return segment_base(seg_index);\n            }\n        }\n        return segment_base(num_segments);')]),
+    dict(name='c11-loop-construct-element-access-in-front-of-the-guard', prop='C11', clause='D9', edits=[('include/oneapi/tbb/concurrent_vector.h',
+        """            auto value_guard = make_raii_guard( [&] {
+                abandon_range(table, idx, end_idx);
+            });
+            auto element_address = &base_type::template internal_subscript</*allow_out_of_range_access=*/true>(idx);
+""",
+        """            auto element_address = &base_type::template internal_subscript</*allow_out_of_range_access=*/true>(idx);
+            auto value_guard = make_raii_guard( [&] {
+                abandon_range(table, idx, end_idx);
+            });
+""")]),
+    dict(name='c11-grow-advance-allocation-unguarded', prop='C11', clause='D9', edits=[('include/oneapi/tbb/concurrent_vector.h',
+        """        } ).on_exception( [&] {
+            abandon_range(this->get_table(), start_idx, end_idx);
+        });""",
+        """        } ).on_exception( [&] {
+            (void)start_idx;
+        });""")]),
+    dict(name='c11-first-block-wait-unconditional', prop='C11', clause='D9', edits=[('include/oneapi/tbb/concurrent_vector.h',
+        """            if (table[0].load(std::memory_order_acquire) == this->segment_allocation_failure_tag) {
+                segment_type expected = nullptr;
+                table[seg_index].compare_exchange_strong(expected, this->segment_allocation_failure_tag);
+                break;
+            }
+            backoff.pause();""",
+        """            backoff.pause();""")]),
+    dict(name='c11-wait-path-returns-over-a-failed-segment', prop='C11', clause='D9', edits=[('include/oneapi/tbb/concurrent_vector.h',
+        """            if (this->get_table()[seg_idx].load(std::memory_order_relaxed) == this->segment_allocation_failure_tag) {
+                throw_exception(exception_id::bad_alloc);
+            }
+        }""",
+        """        }""")]),
+    dict(name='c11-abandon-range-does-not-zero-fill', prop='C11', clause='D4', edits=[('include/oneapi/tbb/concurrent_vector.h',
+        """                zero_unconstructed_elements(&this->internal_subscript(i), /*count =*/1);
+            }
+        }
+    }
+
+    template <typename... Args>
+    void internal_loop_construct""",
+        """                (void)i;
+            }
+        }
+    }
+
+    template <typename... Args>
+    void internal_loop_construct""")]),
     dict(name='c01-seed3-run-and-wait-handle-epilogue-on-exception-only', prop='C01', clause='D9', edits=[('include/oneapi/tbb/task_group.h',
         """            execute_and_wait(*acs::release(h), context(), m_wait_vertex.get_context(), context());
         }).on_completion([&] {""",
@@ -1091,9 +1114,7 @@ MUTANTS = [
          "        size_type start_idx = this->my_size.fetch_add(delta);\n        size_type end_idx = start_idx + delta;\n        if (end_idx > 1000000) shrink_to_fit();")]),
     dict(name='c11-segment-base-off', prop='C11', clause='D5', edits=[
         ('include/oneapi/tbb/detail/_segment_table.h', "        return size_type(1) << index & ~size_type(1);", "        return size_type(1) << index & ~size_type(3);")]),
-    dict(name='c11-abandoned-segments-left-pending', prop='C11', clause='D9', edits=[(CV_H,
-        "                mark_abandoned_segments(table, idx, end_idx);\n                segment_index_type last_allocated_segment = this->find_last_allocated_segment(table);\n                size_type segment_size = this->segment_size(last_allocated_segment);\n                end_idx = end_idx < segment_size ? end_idx : segment_size;\n                for (size_type i = idx; i < end_idx; ++i) {\n                    // Only the last segment of the range is allocated in advance,\n                    // the segments between the failed element and the last one may be not allocated yet\n                    if (table[this->segment_index_of(i)].load(std::memory_order_relaxed) > this->segment_allocation_failure_tag) {\n                        zero_unconstructed_elements(&this->internal_subscript(i), /*count =*/1);\n                    }\n                }\n            });\n            segment_table_allocator_traits::construct(base_type::get_allocator(), element_address, args...);",
-        "                segment_index_type last_allocated_segment = this->find_last_allocated_segment(table);\n                size_type segment_size = this->segment_size(last_allocated_segment);\n                end_idx = end_idx < segment_size ? end_idx : segment_size;\n                for (size_type i = idx; i < end_idx; ++i) {\n                    // Only the last segment of the range is allocated in advance,\n                    // the segments between the failed element and the last one may be not allocated yet\n                    if (table[this->segment_index_of(i)].load(std::memory_order_relaxed) > this->segment_allocation_failure_tag) {\n                        zero_unconstructed_elements(&this->internal_subscript(i), /*count =*/1);\n                    }\n                }\n            });\n            segment_table_allocator_traits::construct(base_type::get_allocator(), element_address, args...);")]),
+    dict(name='c11-abandoned-segments-left-pending', prop='C11', clause='D9', edits=[(CV_H, '        mark_abandoned_segments(table, idx, end_idx);\n        for (size_type i = idx; i < end_idx; ++i) {', '        for (size_type i = idx; i < end_idx; ++i) {')]),
     dict(name='c11-table-wait-ignores-failure-flag', prop='C11', clause='D9', edits=[(CV_H,
         """            while (this->get_table() == this->my_embedded_table) {
                 if (this->my_segment_table_allocation_failed.load(std::memory_order_relaxed)) {
@@ -1696,6 +1717,20 @@ BENIGN = [
     dict(name='c11-b-capacity-scan-with-break', prop='C11', edits=[('include/oneapi/tbb/detail/_segment_table.h',
         '        segment_table_type table = get_table();\n        size_type num_segments = number_of_segments(table);\n        for (size_type seg_index = 0; seg_index < num_segments; ++seg_index) {\n            // Check if the pointer is valid (allocated)\n            if (table[seg_index].load(std::memory_order_relaxed) <= segment_allocation_failure_tag) {\n                return segment_base(seg_index);\n            }\n        }\n        return segment_base(num_segments);',
         '        segment_table_type table = get_table();\n        size_type num_segments = number_of_segments(table);\n        size_type seg_index = 0;\n        for (; seg_index < num_segments; ++seg_index) {\n            // Check if the pointer is valid (allocated)\n            if (!(table[seg_index].load(std::memory_order_relaxed) > segment_allocation_failure_tag)) {\n                break;\n            }\n        }\n        return segment_base(seg_index);')]),
+    dict(name='c11-b-abandon-range-inlined-into-the-guard', prop='C11', edits=[('include/oneapi/tbb/concurrent_vector.h',
+        """            auto value_guard = make_raii_guard( [&] {
+                abandon_range(table, idx, end_idx);
+            });
+            auto element_address""",
+        """            auto value_guard = make_raii_guard( [&] {
+                mark_abandoned_segments(table, idx, end_idx);
+                for (size_type i = idx; i < end_idx; ++i) {
+                    if (table[this->segment_index_of(i)].load(std::memory_order_relaxed) > this->segment_allocation_failure_tag) {
+                        zero_unconstructed_elements(&this->internal_subscript(i), /*count =*/1);
+                    }
+                }
+            });
+            auto element_address""")]),
     dict(name='c01-b-group-wait-epilogue-in-a-named-lambda', prop='C01', edits=[('include/oneapi/tbb/task_group.h',
         """        try_call([&] {
             d1::wait(m_wait_vertex.get_context(), context());
